@@ -81,17 +81,27 @@ func (k Keeper) Authenticate(ctx sdk.Context, sourceChain, destinationChain, por
 	if !found {
 		return false
 	}
-	flag := false
 	for _, rule := range rules {
-		flag, _ = regexp.MatchString(
-			ConvWildcardToRegular(rule),
-			sourceChain+","+destinationChain+","+port,
-		)
-		if flag {
-			break
+		if matchRule(rule, sourceChain, destinationChain, port) {
+			return true
 		}
 	}
-	return flag
+	return false
+}
+
+// matchRule reports whether the rule "src,dst,port" matches the given values field by field;
+// a field that is exactly "*" matches any value, any other field matches only the identical string.
+func matchRule(rule string, values ...string) bool {
+	fields := strings.Split(rule, ",")
+	if len(fields) != len(values) {
+		return false
+	}
+	for i, field := range fields {
+		if field != "*" && field != values[i] {
+			return false
+		}
+	}
+	return true
 }
 
 // ConvWildcardToRegular convert wildcard to regular
